@@ -7,7 +7,7 @@ open GrVerif.Vm GrVerif.Seg GrVerif.Gen.Vm
 
 theorem J.same {c c' : Ctx} {l : List Nat} (h : J c l) (hs : StreamSame c.seg c'.seg) (hi : c'.is = c.is)
     (hh : c'.highwater = c.highwater := by rfl) : J c' l :=
-  ⟨h.linked.same hs, h.clean.same hs, by rw [hi]; exact h.isok.same hs, by rw [hh]; exact h.hw⟩
+  ⟨h.linked.same hs, h.clean.same hs, by rw [hi]; exact h.isok.same hs, by rw [hh]; exact h.hw, h.alloc.same hs⟩
 
 theorem slotat_highwater (c : Ctx) (x : Int) : (slotat c x).2.highwater = c.highwater := by
   unfold slotat; simp only []; split <;> rfl
@@ -83,7 +83,7 @@ theorem putCopy_PS (c : Ctx) (r : Int) (h : PS c) : OutcomeP PS (opPutCopy c r) 
       simp only []
       have hseg : (slotat c r).2.seg = c.seg := slotat_seg c r
       have hiss : (slotat c r).2.is = c.is := slotat_is c r
-      have hj' : J (slotat c r).2 l := ⟨by rw [hseg]; exact hj.linked, by rw [hseg]; exact hj.clean, by rw [hseg, hiss]; exact hj.isok, by rw [slotat_highwater]; exact hj.hw⟩
+      have hj' : J (slotat c r).2 l := ⟨by rw [hseg]; exact hj.linked, by rw [hseg]; exact hj.clean, by rw [hseg, hiss]; exact hj.isok, by rw [slotat_highwater]; exact hj.hw, by rw [hseg]; exact hj.alloc⟩
       split
       · split
         · split
@@ -113,7 +113,7 @@ theorem assoc_PS (c : Ctx) (rs : List Int) (h : PS c) : OutcomeP PS (opAssoc c r
   simp only []
   obtain ⟨e1, e2, e3⟩ := assocFold_same c rs (-1, -1, c) ⟨rfl, rfl, rfl⟩
   obtain ⟨l, hj⟩ := h
-  have hj' : J (rs.foldl assocStep (-1, -1, c)).2.2 l := ⟨by rw [e1]; exact hj.linked, by rw [e1]; exact hj.clean, by rw [e1, e2]; exact hj.isok, by rw [e3]; exact hj.hw⟩
+  have hj' : J (rs.foldl assocStep (-1, -1, c)).2.2 l := ⟨by rw [e1]; exact hj.linked, by rw [e1]; exact hj.clean, by rw [e1, e2]; exact hj.isok, by rw [e3]; exact hj.hw, by rw [e1]; exact hj.alloc⟩
   split
   · split
     · exact ⟨l, hj'.same (by simp only [withSeg_seg]; exact StreamSame.upd _ _ _ (fun _ => ⟨rfl, rfl, rfl, rfl⟩)) rfl⟩
@@ -158,7 +158,7 @@ theorem tempCopy_PS (c : Ctx) (h : PS c) : OutcomeP PS (opTempCopy c) := by
     obtain ⟨l, hj⟩ := h
     obtain ⟨l1, i1, hkl, hks, hkf, hkp, hkd, hkc, c1⟩ := newSlot_spec hj.linked hj.clean hj.isok heq
     split
-    · refine ⟨l, ⟨?_, ?_, ?_, by simpa using hj.hw⟩⟩
+    · refine ⟨l, ⟨?_, ?_, ?_, by simpa using hj.hw, ?_⟩⟩
       · simp only [setCell_seg, withSeg_seg]
         exact ⟨l1.nodup, fun x hx => by simpa using l1.inb x hx, l1.first, l1.last, chain_upd_notin k _ hkl l1.chain⟩
       · simp only [setCell_seg, withSeg_seg]
@@ -171,12 +171,21 @@ theorem tempCopy_PS (c : Ctx) (h : PS c) : OutcomeP PS (opTempCopy c) := by
         · exact .inr (.inl h0)
         · have hdk : d ≠ k := fun hh => by rw [hh, hkd] at h3; cases h3
           exact .inr (.inr ⟨d, h1, h2, by rw [get_upd_ne _ _ _ _ hdk]; exact h3, by rw [get_upd_ne _ _ _ _ hdk]; exact h4, by rw [get_upd_ne _ _ _ _ hdk]; exact h5, by rw [get_upd_ne _ _ _ _ hdk]; exact h6⟩)
+      · -- the new slot is a temporary copy; every other slot in use was in use before
+        simp only [setCell_seg, withSeg_seg]
+        intro j a1 a2 a3 a4
+        have hjk : j ≠ k := fun hh => by
+          rw [hh, get_upd_self _ _ _ hks] at a3; simp at a3
+        rw [get_upd_ne _ _ _ _ hjk] at a3 a4
+        rcases newSlot_alloc hj.alloc heq j (by simpa using a1) (by simpa using a2) a3 a4 with hx | hx
+        · exact hx
+        · exact absurd hx hjk
     · trivial
   · exact die_PS c h
 
 theorem slotat_PS (c : Ctx) (x : Int) (h : PS c) : PS (slotat c x).2 := by
   obtain ⟨l, hj⟩ := h
-  exact ⟨l, ⟨by rw [slotat_seg]; exact hj.linked, by rw [slotat_seg]; exact hj.clean, by rw [slotat_seg, slotat_is]; exact hj.isok, by rw [slotat_highwater]; exact hj.hw⟩⟩
+  exact ⟨l, ⟨by rw [slotat_seg]; exact hj.linked, by rw [slotat_seg]; exact hj.clean, by rw [slotat_seg, slotat_is]; exact hj.isok, by rw [slotat_highwater]; exact hj.hw, by rw [slotat_seg]; exact hj.alloc⟩⟩
 
 theorem putGlyph_PS (c : Ctx) (k : Nat) (h : PS c) : OutcomeP PS (opPutGlyph c k) := by
   unfold opPutGlyph
